@@ -30,6 +30,8 @@ class Ring:
         self.inv0 = inv0           # x / 0 == 0  (fork on the divisor) instead of assuming non-zero
         self.name = name
         self.cancelled_constants = set()
+        self.n_decisions = 0
+        self.max_decisions = 20000
         # per-path state
         self.subst = []            # [(atom term, replacement term)]
         self.lits = []             # [(normal_terms(list), is_zero(bool), origin)]
@@ -236,6 +238,10 @@ class Ring:
     def decide_zero(self, comps, origin="=="):
         """comps: list of terms that must all vanish.  Returns bool (forking if undecided)."""
         ctx = core.cur()
+        core.check_deadline()
+        self.n_decisions += 1
+        if self.n_decisions > self.max_decisions:
+            raise core.PathLimit("more than %d ring decisions on one path" % self.max_decisions)
         comps = [self._apply_subst(c) for c in comps]
         sts = [self.status(c) for c in comps]
         if all(s == "zero" for s in sts):
